@@ -679,6 +679,8 @@ func runDoc(c *hl.Ctx, d doc, tc famCfg) {
 	c.Add("distinct_nontrivial", nontrivial)
 	c.Add("comment_free_texts", pass)
 	c.Add("documents", 1)
+	c.Add("documents/"+d.fam, 1)
+	c.Add("decorated_texts/"+d.fam, nontrivial+pass)
 }
 
 // ---------------------------------------------------------------- size family
@@ -824,16 +826,37 @@ func run(c *hl.Ctx) {
 	idx := 0
 	stop := false
 	fams := map[string]string{}
+	reserved := map[string]bool{}
+	heavyPhase := false
+	type heavyDoc struct {
+		fam  string
+		toks []tok
+		tc   famCfg
+	}
+	var heavy []heavyDoc
+	reserve := func(fam string, toks []tok, tc famCfg) {
+		key := strings.Join(texts(toks), "")
+		if !reserved[key] {
+			reserved[key] = true
+			heavy = append(heavy, heavyDoc{fam, toks, tc})
+		}
+	}
 	emit := func(fam string, toks []tok, tc famCfg) {
 		if stop {
 			return
 		}
-		if _, ok := fams[fam]; !ok {
-			fams[fam] = tc.String()
+		if d := tc.String(); !strings.Contains(fams[fam], d) {
+			if fams[fam] != "" {
+				fams[fam] += " || "
+			}
+			fams[fam] += d
 		}
 		key := strings.Join(texts(toks), "")
 		if _, ok := seen[key]; ok {
 			return
+		}
+		if reserved[key] && !heavyPhase {
+			return // enumerated later with the deeper configuration
 		}
 		seen[key] = struct{}{}
 		idx++
@@ -927,12 +950,31 @@ func run(c *hl.Ctx) {
 		treeDocs(atoms, fillers[1:], fillers[1:], 2, func(toks []tok) { emit("T/tree", toks, tree) })
 	} else {
 		full2 := famCfg{fullB: 2, finalAll: true, extraMaxDec: 99, splitMaxDec: 99, splitFinals: true}
-		full4 := famCfg{fullB: 4, finalAll: true, extraMaxDec: 99, splitMaxDec: 2, splitFinals: true}
+		full4 := famCfg{fullB: 4, finalMaxDec: 2, extraMaxDec: 99, splitMaxDec: 2, splitFinals: true}
 		full6 := famCfg{fullB: 6, finalMaxDec: 2, extraMaxDec: 2, splitMaxDec: 2}
 		le3 := famCfg{fullB: 0, maxDec: 3, finalMaxDec: 2, extraMaxDec: 99, splitMaxDec: 2}
 		le2 := famCfg{fullB: 0, maxDec: 2, finalMaxDec: 1, extraMaxDec: 99, splitMaxDec: 1}
 		tree2 := famCfg{fullB: 4, maxDec: 2, finalMaxDec: 1, extraMaxDec: 99, splitMaxDec: 1}
 		tree4 := famCfg{fullB: 4, maxDec: 1, finalMaxDec: 1, extraMaxDec: 99, splitMaxDec: 0}
+		in := func(set []string, s string) bool {
+			for _, x := range set {
+				if x == s {
+					return true
+				}
+			}
+			return false
+		}
+		// broad families first, the deep 7^6 products last, so that a run cut short by the budget has covered every family
+		for _, s := range s2 {
+			reserve("S/key", keyDoc(s), full6)
+			reserve("S/member", member(s), full6)
+		}
+		for _, s := range s1 {
+			for _, t := range s1 {
+				reserve("P1/array", pairA(s, t), full6)
+				reserve("P1/object", pairO(s, t), full6)
+			}
+		}
 		for _, s := range s3 {
 			emit("S/value", value(s), full2)
 			emit("S/element", element(s), full4)
@@ -940,29 +982,27 @@ func run(c *hl.Ctx) {
 				emit("S/alt-escapes", altElem(s), full4)
 			}
 		}
-		for _, s := range s2 {
-			emit("S/key", keyDoc(s), full6)
-			emit("S/member", member(s), full6)
-		}
 		for _, s := range s3 {
-			emit("S/key", keyDoc(s), le3)
-			emit("S/member", member(s), le3)
-		}
-		for _, s := range s1 {
-			for _, t := range s1 {
-				emit("P1/array", pairA(s, t), full6)
-				emit("P1/object", pairO(s, t), full6)
+			if !in(s2, s) {
+				emit("S/key", keyDoc(s), le3)
+				emit("S/member", member(s), le3)
 			}
 		}
 		for _, s := range s2 {
 			for _, t := range s2 {
-				emit("P2/array", pairA(s, t), le2)
-				emit("P2/object", pairO(s, t), le2)
+				if !(in(s1, s) && in(s1, t)) {
+					emit("P2/array", pairA(s, t), le2)
+					emit("P2/object", pairO(s, t), le2)
+				}
 			}
 		}
 		c.Info("tree_bounds", "depth<=2: <=2 leaves over 6 atoms + strings {a, hostile filler}, keys {a, hostile filler}; 3..4 leaves over atoms {12, {}} + hostile filler string, keys {hostile filler}")
 		treeDocs(atoms, fillers, fillers, 2, func(toks []tok) { emit("T/tree<=2", toks, tree2) })
 		treeDocs([]string{"12", "{}"}, fillers[1:], fillers[1:], 4, func(toks []tok) { emit("T/tree<=4", toks, tree4) })
+		heavyPhase = true
+		for _, h := range heavy {
+			emit(h.fam, h.toks, h.tc)
+		}
 	}
 	c.Info("families", fams)
 	c.Info("documents_enumerated", len(seen))
